@@ -6,6 +6,7 @@ package txval
 //   built := types.TransactionFromRawBytes(raw); validation.VerifyTransaction(built) accepted; S_val = built.SignedAddr
 //   fresh := types.TransactionFromRawBytes(built.ToArray())  (what a node has after decoding a block);  S_raw = fresh.GetSignatureAddresses()
 //   require S_val == S_raw as sets, and SmartContract.CheckWitness(a) identical on both objects for every a in S_val ∪ S_raw.
+// The same oracle over histories (an accepted object keeps its signer set while the validator judges other transactions): c17_held_test.go.
 
 import (
 	"bytes"
@@ -28,7 +29,8 @@ const c17Key = "raw-script-vs-parsed-key-address"
 const c17Rule = "accepted txs over every zoo key kind: (a) built by the repo's canonical builders (fix.Sign / fix.MultiSign over types.MutableTransaction) with keys in generated order, " +
 	"(b) harness-serialised txs signed once and re-encoded (alternative accepted key encodings, generated key order, PUSHDATA1/2/4 pushes, n as bytes, alternative signature encodings, permuted/duplicated sets); " +
 	"non-trivial = some verification script is not the canonical script of its keys, or an ethereum-type key, or a multisig whose generated key order is not the canonical order, or a non-canonical invocation script; " +
-	"distinct = different (tx hash, encoding) description"
+	"(c) held signer sets (TestC17_HeldSigners): histories of 2-8 small transactions (1-3 sets, single and m-of-n<=4, canonical / re-encoded / rejected by a damaged signature, a changed payer byte or a payer nobody signed for) validated back to back on one goroutine, with re-validation of an earlier object as noise, optionally followed by 2-4 joined goroutines validating further ones; every accepted object is held with a private copy of its SignedAddr taken at return and must, after the later validations, still report exactly that set (SignedAddr, GetSignatureAddresses, CheckWitness for every account generated in the history), equal to what a fresh decode of its bytes derives; non-trivial there = at least two accepted transactions with different signer sets held over a later validation; " +
+	"distinct = different (tx hash, encoding) description, for (c) different history description"
 
 func c17Ev() *harn.Collector {
 	ev := harn.For("C17").Rule(c17Rule)
